@@ -415,7 +415,7 @@ Section Inv.
   Qed.
 
   Definition J (tr : list event) (e : event) : Prop :=
-    login_justified parse tr e /\ start_justified scope_exec tr e.
+    login_justified parse tr e /\ start_justified scope_all tr e.
 
   Lemma sess_ok_mono : forall tr e sid s,
       sess_ok tr sid s -> login_of (tr ++ [e]) sid = login_of tr sid -> sess_ok (tr ++ [e]) sid s.
@@ -660,7 +660,7 @@ Section Inv.
       check_cmd t cmd shell (s_actions s) = Some (g, rest) ->
       inv (set_sess st (update_nth (st_sess st) (N.to_nat sid) (set_actions s rest)))
           (tr ++ [EvStart sid (AExec cmd shell) t (Some g)]) /\
-      start_justified scope_exec tr (EvStart sid (AExec cmd shell) t (Some g)).
+      start_justified scope_all tr (EvStart sid (AExec cmd shell) t (Some g)).
   Proof.
     intros st tr sid s cmd shell t g rest Hinv Hn Hus Hc.
     destruct (check_cmd_spec _ _ _ _ _ _ Hc) as [Husable [a [b [Hact [Hrest _]]]]].
@@ -711,14 +711,13 @@ Section Inv.
     | _ => False
     end.
 
-  (* an action that the exec clause does not cover, started without a grant being used *)
+  (* an action started without a grant being used: only in a session that was not admitted through grants *)
   Lemma start_none_justified : forall st tr sid s a t,
-      inv st tr -> nth_sess (st_sess st) sid = Some s ->
-      (s_using s = true -> scope_exec a = false) ->
-      start_justified scope_exec tr (EvStart sid a t None).
+      inv st tr -> nth_sess (st_sess st) sid = Some s -> s_using s = false ->
+      start_justified scope_all tr (EvStart sid a t None).
   Proof.
     intros st tr sid s a t Hinv Hn Hs. destruct (i_sess _ _ Hinv _ _ Hn) as [v [Hlog Hv]].
-    simpl. rewrite Hlog. destruct v; auto. destruct Hv as [Hu _]. rewrite (Hs Hu). discriminate.
+    simpl. rewrite Hlog. destruct v; auto. destruct Hv as [Hu _]. congruence.
   Qed.
 
   Lemma authorize_key_justified : forall st tr u k,
@@ -735,7 +734,7 @@ Section Inv.
   Lemma step_inv : forall st tr o st' evs,
       inv st tr -> step parse st o = (st', evs) -> inv st' (tr ++ evs) /\ evs_ok tr evs.
   Proof.
-    intros st tr o st' evs Hinv Hstep. destruct o; unfold step in Hstep.
+    intros st tr o st' evs Hinv Hstep. destruct o; unfold step, step_gen in Hstep.
     - (* OSetFile *) inversion Hstep; subst. split. apply inv_setfile; auto. simpl. split; simpl; auto.
     - (* OEnable *) inversion Hstep; subst. split. apply inv_enable; auto. split; simpl; auto.
     - (* OAddGrant *)
@@ -778,12 +777,14 @@ Section Inv.
         * destruct (inv_exec _ _ _ _ _ _ _ _ _ Hinv En Eu Ec) as [H1 H2]. split; auto. split; [simpl; auto|exact H2].
         * split; [apply inv_neutral; simpl; auto|split; simpl; auto].
       + inversion Hstep; subst. split. apply inv_neutral; simpl; auto. split. simpl; auto.
-        eapply start_none_justified; eauto; congruence.
+        eapply start_none_justified; eauto.
     - (* OPF *)
       destruct (nth_sess (st_sess st) sid) as [s|] eqn:En.
       2:{ inversion Hstep; subst. split; [apply inv_neutral; simpl; auto|split; simpl; auto]. }
       destruct (dispatch s 5 true) eqn:Ed;
         try (inversion Hstep; subst; split; [apply inv_neutral; simpl; auto|split; simpl; auto]; fail).
+      destruct (s_using s) eqn:Eu; simpl in Hstep.
+      { inversion Hstep; subst. split; [apply inv_neutral; simpl; auto|split; simpl; auto]. }
       inversion Hstep; subst. split. apply inv_neutral; simpl; auto. split. simpl; auto.
       eapply start_none_justified; eauto.
     - (* OIntent *)
@@ -791,6 +792,8 @@ Section Inv.
       2:{ inversion Hstep; subst. split; [apply inv_neutral; simpl; auto|split; simpl; auto]. }
       destruct (dispatch s 2 true) eqn:Ed;
         try (inversion Hstep; subst; split; [apply inv_neutral; simpl; auto|split; simpl; auto]; fail).
+      destruct (s_using s) eqn:Eu; simpl in Hstep.
+      { inversion Hstep; subst. split; [apply inv_neutral; simpl; auto|split; simpl; auto]. }
       destruct (negb (st_enabled st)) eqn:Een.
       { inversion Hstep; subst. split; [apply inv_neutral; simpl; auto|split; simpl; auto]. }
       destruct (check_intent s i cert_ok wall).
@@ -839,14 +842,15 @@ Section Main.
   Variable parse : bytes -> option key.
 
   Lemma run_snoc : forall ops o, run parse (ops ++ [o]) = exec1 parse (run parse ops) o.
-  Proof. intros. unfold run. rewrite fold_left_app. reflexivity. Qed.
+  Proof. intros. unfold run, run_gen. rewrite fold_left_app. reflexivity. Qed.
 
   Lemma run_ok : forall ops, inv (final parse ops) (trace parse ops) /\ all_justified (J parse) (trace parse ops).
   Proof.
     induction ops as [|o ops IH] using rev_ind.
     - split. apply inv_init. constructor.
-    - destruct IH as [Hinv Hall]. unfold final, trace in *. rewrite run_snoc. unfold exec1.
-      destruct (step parse (fst (run parse ops)) o) as [st' evs] eqn:Es. simpl.
+    - destruct IH as [Hinv Hall]. unfold final, trace in *. rewrite run_snoc. unfold exec1, exec1_gen.
+      destruct (step_gen parse true (fst (run parse ops)) o) as [st' evs] eqn:Es. simpl.
+      change (step_gen parse true) with (step parse) in Es.
       destruct (step_inv parse _ _ _ _ _ Hinv Es) as [H1 H2]. split; auto.
       destruct evs as [|e1 [|e2 [|e3 evs]]]; simpl in H2; try contradiction.
       + constructor; auto.
@@ -904,7 +908,7 @@ Section Main.
       unconsumed (trace parse ops ++ [EvLogin sid u k (ViaGrant ags)]) u k = [].
   Proof.
     intros ops u k st' sid ags H. pose proof (run_inv ops) as Hinv.
-    unfold step, check_authorization in H.
+    unfold step, step_gen, check_authorization in H.
     destruct (authorize_key parse (final parse ops) u k).
     { inversion H. }
     destruct (st_enabled (final parse ops)) eqn:En.
@@ -923,7 +927,7 @@ Section Main.
       unconsumed (trace parse ops ++ [EvApiGrant u k (Some ags)]) u k = [].
   Proof.
     intros ops u k st' ags H. pose proof (run_inv ops) as Hinv.
-    unfold step, authorize_key_authgrant in H.
+    unfold step, step_gen, authorize_key_authgrant in H.
     destruct (st_enabled (final parse ops)) eqn:En.
     2:{ inversion H. }
     destruct (ag_lookup (st_agmap (final parse ops)) (u, k)) eqn:El; inversion H; subst. simpl.
@@ -954,7 +958,7 @@ Section Main.
   Qed.
 
   (* ---------------- C07 ---------------- *)
-  Theorem exec_justified : forall ops, all_justified (start_justified scope_exec) (trace parse ops).
+  Theorem actions_justified : forall ops, all_justified (start_justified scope_all) (trace parse ops).
   Proof.
     intro ops. eapply all_justified_weaken; [|apply run_ok]. intros tr e [_ H]; exact H.
   Qed.
@@ -966,7 +970,7 @@ Section Main.
                 authorizes g (AExec cmd shell) t /\ ~ In (g_id g) (used_ids pre).
   Proof.
     intros ops pre sid cmd shell t used post u k ags E Hl.
-    pose proof (all_justified_split _ _ (exec_justified ops) _ _ _ E) as H.
+    pose proof (all_justified_split _ _ (actions_justified ops) _ _ _ E) as H.
     simpl in H. rewrite Hl in H. apply H. reflexivity.
   Qed.
 
@@ -1086,15 +1090,18 @@ Section C07Extras.
   Theorem issue_conditions : forall st sid i cert_ok wall st' evs,
       step parse st (OIntent sid i cert_ok wall) = (st', evs) ->
       In (EvStart sid (AIssue i) wall None) evs ->
-      exists s, nth_sess (st_sess st) sid = Some s /\ st_enabled st = true /\
+      exists s, nth_sess (st_sess st) sid = Some s /\ s_using s = false /\ st_enabled st = true /\
                 (wall <= i_exp i)%Z /\ s_user s = i_user i /\ cert_ok = true /\ 1 <= i_type i <= 4.
   Proof.
-    intros st sid i cert_ok wall st' evs H Hin. unfold step in H.
+    intros st sid i cert_ok wall st' evs H Hin. unfold step, step_gen in H.
     destruct (nth_sess (st_sess st) sid) as [s|] eqn:En.
     2:{ inversion H; subst. simpl in Hin. destruct Hin as [Hc|[]]; discriminate. }
     exists s. split; auto.
     destruct (dispatch s 2 true) eqn:Ed;
       try (inversion H; subst; simpl in Hin; destruct Hin as [Hc|[]]; discriminate).
+    destruct (s_using s) eqn:Eus; simpl in H.
+    { inversion H; subst. simpl in Hin. destruct Hin as [Hc|[]]; discriminate. }
+    split; auto.
     destruct (st_enabled st) eqn:Een; simpl in H.
     2:{ inversion H; subst. simpl in Hin. destruct Hin as [Hc|[]]; discriminate. }
     split; auto.
@@ -1108,3 +1115,51 @@ Section C07Extras.
     apply Z.ltb_ge in E1. apply beq_bytes_eq in E2. repeat split; auto.
   Qed.
 End C07Extras.
+
+(* ------------------------------------------------------------------ 10. what a delegate session starts *)
+Lemma step_start_shape : forall parse b st o st' evs sid a t used,
+    step_gen parse b st o = (st', evs) -> In (EvStart sid a t used) evs ->
+    match a with AExec _ _ => True | _ => used = None end.
+Proof.
+  intros parse b st o st' evs sid a t used H Hin. destruct a; auto;
+    destruct o; unfold step_gen in H;
+    repeat match type of H with
+           | context [match ?x with _ => _ end] => destruct x eqn:?
+           end;
+    inversion H; subst; simpl in Hin;
+    repeat match type of Hin with
+           | _ \/ _ => destruct Hin as [Hin|Hin]
+           | False => contradiction
+           end; try discriminate; try (inversion Hin; reflexivity).
+Qed.
+
+Lemma trace_start_shape : forall parse b ops sid a t used,
+    In (EvStart sid a t used) (snd (run_gen parse b ops)) ->
+    match a with AExec _ _ => True | _ => used = None end.
+Proof.
+  intros parse b ops. induction ops as [|o ops IH] using rev_ind; intros sid a t used Hin.
+  - simpl in Hin. contradiction.
+  - unfold run_gen in *. rewrite fold_left_app in Hin. simpl in Hin. unfold exec1_gen at 1 in Hin.
+    destruct (step_gen parse b (fst (fold_left (exec1_gen parse b) ops (init_state, []))) o) as [st' evs] eqn:Es.
+    simpl in Hin. apply in_app_or in Hin as [Hin|Hin].
+    + apply (IH sid a t used Hin).
+    + eapply step_start_shape; eauto.
+Qed.
+
+(* a session admitted through grants never starts port forwarding and never gets a grant stored:
+   everything it starts is a shell or a command *)
+Theorem delegate_starts_only_exec : forall parse ops pre sid a t used post u k ags,
+    trace parse ops = pre ++ EvStart sid a t used :: post ->
+    login_of pre sid = Some (u, k, ViaGrant ags) ->
+    exists cmd shell, a = AExec cmd shell.
+Proof.
+  intros parse ops pre sid a t used post u k ags E Hl.
+  pose proof (all_justified_split _ _ (actions_justified parse ops) _ _ _ E) as H.
+  simpl in H. rewrite Hl in H. destruct (H eq_refl) as [g [Hu [_ [_ [Ha _]]]]].
+  destruct a as [cmd shell| |i].
+  - eauto.
+  - assert (Hs: In (EvStart sid APF t used) (trace parse ops)).
+    { rewrite E. apply in_or_app; right; left; reflexivity. }
+    apply (trace_start_shape parse true ops) in Hs. simpl in Hs. congruence.
+  - destruct Ha as [_ []].
+Qed.
